@@ -27,3 +27,5 @@ def python_evaluate(s: str) -> int:
         raise NotAnIntegerException(s, str(ex))
     except NameError as ex:
         raise NotAnIntegerException(s, str(ex))
+    except ArithmeticError as ex:
+        raise NotAnIntegerException(s, str(ex))
